@@ -11,8 +11,8 @@ CONSTANTS
   MaxParts = 1
   MaxOps = 1
   MaxRetry = 1
-  ContentSel = {1, 6, 9}
-  ProfileSel = {1, 3, 7}
+  ContentSel = {6, 9}
+  ProfileSel = {1, 7, 9, 10, 11}
   UseJson = TRUE
   BoundarySel = {2, 4}
   PreSel = {1}
